@@ -145,27 +145,26 @@ Definition dd_int_of (v : jv) : option Z := match v with JNum _ i => i | _ => No
 
 Record dcase := DCase { dc_case : case; dc_doc : jv; dc_written : bool; dc_letters : list string }.
 Definition dc_logs (c : dcase) : option (list ddlog) := dd_document (in_tab (dc_letters c)) dd_int_of (dc_doc c).
+Definition case_clock (c : case) : clock := match body_clock (c_body c) with Some ck => ck | None => CK 0 0 [] end.
 Definition with_ddbody (c : case) (l : list ddlog) : case :=
-  Case (c_id c) (BDDLog l) (c_ctx_ttl c) (c_cache c) (c_tab c) (c_obs c) (c_err c).
+  Case (c_id c) (BDDLog (case_clock c) l) (c_ctx_ttl c) (c_cache c) (c_tab c) (c_obs c) (c_err c).
 (* an empty string field and an absent one are the same to the decoder *)
 Definition ostr_eqb (a b : option string) : bool := String.eqb (opt_str a) (opt_str b).
 Definition ddlog_eqb (a b : ddlog) : bool :=
   labels_eqb (dl_tags a) (dl_tags b) && ostr_eqb (dl_source a) (dl_source b) && ostr_eqb (dl_service a) (dl_service b) &&
   ostr_eqb (dl_host a) (dl_host b) && ostr_eqb (dl_stype a) (dl_stype b) && String.eqb (dl_msg a) (dl_msg b) && (dl_ts a =? dl_ts b)%Z.
-(* a log without a (non-zero) timestamp is stamped with time.Now(): outside the model, such documents are not compared *)
-Definition dd_modelled (l : list ddlog) : bool := forallb (fun e => negb (dl_ts e =? 0)%Z) l.
+(* a log without a (non-zero) timestamp is stamped with time.Now(): the clock readings of the case (model/Decode.v clock) *)
 Definition dc_mismatch (c : dcase) : bool :=
   match dc_logs c with
   | None => negb (is_error (c_err (dc_case c)))
   | Some l =>
-    dd_modelled l &&
-    ((dc_written c && negb (match c_body (dc_case c) with BDDLog l0 => list_eqb ddlog_eqb l l0 | _ => false end))
-    || model_mismatch (with_ddbody (dc_case c) l))
+    (dc_written c && negb (match c_body (dc_case c) with BDDLog _ l0 => list_eqb ddlog_eqb l l0 | _ => false end))
+    || model_mismatch (with_ddbody (dc_case c) l)
   end.
 Definition dc_spec_violation (c : dcase) : bool :=
   if dc_written c then spec_violation (dc_case c)
   else match dc_logs c with
-       | Some l => dd_modelled l && negb (is_error (c_err (dc_case c))) && spec_violation (with_ddbody (dc_case c) l)
+       | Some l => negb (is_error (c_err (dc_case c))) && spec_violation (with_ddbody (dc_case c) l)
        | None => false
        end.
 Definition dc_check_all (cs : list dcase) : list Z * list Z :=
